@@ -31,6 +31,32 @@ cosine-type measures unchanged by positive scaling, correlation-type by      C17
   positive affine maps (cosine, cosine_cov, corr, corr_cov; sigma_k None /    (orc_scale_affine)
   vector / matrix); cosine and corr also against np.dot / centred np.dot
 
+Dimension sweeps (function _sweeps; the *-sweeps domains run the oracles above with further keys in the case dicts)
+--------------------------------------------------------------------------------------------------------------------
+typed data        key dtype: the dissimilarities are handed to RDMs(...) as int8 .. int64 / uint8 / uint16 / float32; the expected
+                  values are those of the same numbers in float64 (single precision suffices below 32 bit and for float32).
+                  rank, sqrt, positive, minmax, geotopological, geodesic, transform; compare (all 9 methods) and eval_fixed on
+                  typed stacks, also after typed library transforms
+units             keys scale, shift: x -> s*x+t with s = 1e-26 .. 1e12 and offsets large against the spread, for every
+                  transform (sqrt / positive judged relative to the value itself); scalings 1e-26 / 1e12 among the increasing
+                  maps of the rank-based measures; correlation-type measures under a*x+b in such units
+containers        descriptor kinds 'tuples' (tuple-typed, int and str labels, repeated / interleaved, first appearance not in
+                  sorted order, own tuple index) and 'vectors' (2-D arrays and lists of lists) for all transforms
+                  (C17/descriptors-measure-containers, and rotated through every sweep); quantiles of the geo-topological
+                  transform as int, np.float64, np.float32, 0-d array (key qtype)
+sizes             2 conditions (a single pair; for geotopological a stack of such RDMs), 9-15 conditions, up to 12 RDMs
+call sequences    C17/call-sequence (orc_call_sequence): t(A), t(B), t(A) with B of the same shape / descriptors / measure:
+                  the held first result is unchanged, the repeated call agrees exactly, all three are the stated values;
+                  C17/compare-call-sequence (orc_compare_sequence): the same for compare
+environment       C17/hashseed (orc_hashseed): a batch of cases of the oracles in new interpreters with other PYTHONHASHSEED
+competitor sets / file order: nothing in this property (the geodesic clause is checked against exact Floyd-Warshall lengths)
+
+Defects found by the sweeps, registrations behind `if False:  # pending triage` in _sweeps
+* 'integer-typed' (minmax_transform, and geodesic_transform through it): the result is written back into the integer array
+  and truncated to 0 / 1 -- RDMs(np.array([[3, 1, 7, 200, 5, 1]])) -> [0, 0, 0, 1, 0, 0]; geodesic -> all 0
+* 'sqrt,8-bit-integer-typed' (sqrt_transform of int8 / uint8 RDMs): np.sqrt of an 8-bit array is float16 -- sqrt(5) = 2.2363
+  instead of 2.23607 (relative error up to 5e-4)
+
 NOT covered by this tier
 * "for all inputs": everything here is bounded (exhaustive over weak orders of 3 and 6 entries for the element-wise maps
   and the ranks; seeded elsewhere).  The all-reals statements are the business of engines B / L (DESIGN C17).
@@ -41,6 +67,10 @@ NOT covered by this tier
 * deep-copy freshness of the returned descriptor dicts and non-mutation of the source (C12).
 * that the measures themselves are the textbook formulas for all inputs (C03); here only on the cases generated.
 * bures / bures_metric / neg_riem_dist are not named by the property and are not examined.
+* typed data: bool and float16 RDMs (minmax / geotopological / geodesic raise TypeError on bool: numpy has no boolean
+  subtraction); how exact results for float32 / int16 RDMs are beyond single precision (sqrt_transform, compare and eval_fixed
+  return single-precision values there); custom functions whose value depends on the dtype they are handed (wrap-around).
+* call sequences on the SAME source object (whether the source is written to is C12), non-mutation of compare's inputs.
 * the exact blank in 'sqrt of<name>': names are compared modulo blanks (see findings, observation O1).
 """
 import itertools
